@@ -1,16 +1,19 @@
 (* C01 - multiproof completeness.
-   PARTIAL (DESIGN.md 6.1): proved for all inputs: (1) the grouping of openings by
-   evaluation point is independent of the number of workers and of the arrival order of
-   their results and loses no opening; (2) hence CreateMultiProof is independent of the
-   schedule; (3) the inner IPA argument is complete for every vector length 2^k, every
-   evaluation point and every transcript state, prover and verifier ending in the same
-   transcript state; (4) shape errors.  NOT proved: the algebraic identity
-   <h - g, b(t)> = g_2(t) - g_1(t) linking DivideOnDomain to the verifier's g_2(t)
-   (needs the barycentric interpolation theorem, C18 partial).  End-to-end acceptance of
-   honest statements in all the listed shapes is decided by correspondence. *)
+   Main theorem C01_multiproof_complete: for EVERY non-empty list of honest openings
+   (any number, any repetition pattern of the z_i, any polynomials), every worker count and
+   arrival order, every transcript state and label, CreateMultiProof succeeds and
+   CheckMultiProof run on the same transcript state accepts, both ending in the same
+   transcript state (hence the same next challenge).  Abstract field with partial inverse
+   (FieldLaws) and abstract module (GroupLaws), domain size 2^k for every k.
+   Premises, all explicit: the group laws; differences of domain nodes invertible and the
+   embedding of naturals additive (both PROVED for Fr, n = 256: C18_concrete_premises);
+   and the run-time-decidable side conditions on the challenges actually drawn: t is not
+   in the domain (t - i invertible, canonical value above n-1) and the k IPA round
+   challenges are invertible.  Commitments are taken as the group elements Commit(f_i);
+   independence of their representation is C07/C08. *)
 From Coq Require Import ZArith List Permutation Arith.
 From GoIpa Require Import Model.Bytes Model.Alg Model.Transcript Model.Bary Model.Banderwagon Model.IPA Model.Multiproof
-  Proofs.AlgLaws Proofs.GroupingProofs Proofs.MultiproofProofs Proofs.IPAProofs.
+  Proofs.AlgLaws Proofs.GroupingProofs Proofs.MultiproofProofs Proofs.IPAProofs Proofs.BaryProofs Proofs.MultiproofComplete.
 Import ListNotations.
 
 Theorem C01_grouping_loses_nothing :
@@ -44,3 +47,57 @@ Theorem C01_inner_ipa_complete :
           ipa_check fo go hashf t cfg c pr z res = Some (t', true)).
 Proof. intros F G fo go hashf FL GL Hr. exact (ipa_complete fo go hashf FL GL Hr). Qed.
 Print Assumptions C01_inner_ipa_complete.
+
+Theorem C01_multiproof_complete :
+  forall (F G : Type) (fo : FOps F) (go : GOps F G) (hashf : list Z -> list Z),
+  FieldLaws fo -> GroupLaws fo go -> (forall x, geqb go x x = true) ->
+  (forall i j, dom fo (i + j) = fadd fo (dom fo i) (dom fo j)) ->
+  forall (k : nat) (cfg : config (F := F) (G := G)),
+    c_n cfg = (2 ^ k)%nat -> c_rounds cfg = k -> length (c_srs cfg) = (2 ^ k)%nat ->
+    c_w cfg = new_weights fo (2 ^ k) -> nodes_ok fo (2 ^ k) ->
+  forall nw arrival t (fs : list (list F)) (zs : list nat),
+    (1 <= nw)%nat -> Permutation arrival (seq 0 nw) ->
+    fs <> [] -> length zs = length fs ->
+    Forall (fun f => length f = (2 ^ k)%nat) fs -> Forall (fun z => (z < 2 ^ k)%nat) zs ->
+    let commit := msm go (c_srs cfg) in
+    let cs := map commit fs in
+    let ys := map (fun fz : list F * nat => nth (snd fz) (fst fz) (f0 fo)) (combine fs zs) in
+    match mp_create fo go hashf nw arrival t cfg commit cs fs zs with
+    | inr _ => False
+    | inl (t', pr) =>
+        let '(t4, tch, EmD, g2t) := mp_view fo go hashf cfg t pr cs ys zs in
+        off_domain fo (2 ^ k) tch -> (Z.of_nat (2 ^ k) - 1 < f2z fo tch)%Z ->
+        Forall (invertible fo) (ipa_challenges fo go hashf t4 cfg EmD (mpIPA pr) tch g2t) ->
+        mp_check fo go hashf t cfg pr cs ys zs = Some (t', true)
+    end.
+Proof.
+  intros F G fo go hashf FL GL Hr Hd k cfg H1 H2 H3 H4 H5.
+  exact (mp_complete fo go hashf FL GL Hr Hd k cfg H1 H2 H3 H4 H5).
+Qed.
+Print Assumptions C01_multiproof_complete.
+
+(* non-vacuity: a toy instance (Z/101 as a module over itself, domain of 4 points, 2 IPA
+   rounds, toy hash) where an honest 3-opening statement with a repeated evaluation point
+   is proved with 2 workers and verified, evaluated in the kernel *)
+From GoIpa Require Import Model.Zq.
+Definition toy_fo : FOps (Zq 101) :=
+  mkFOps (Zq 101) zq_zero zq_one zq_add zq_sub zq_mul zq_neg zq_inv zq_eqb (zq_of_Z 101) zval.
+Definition toy_hash (l : list Z) : list Z := [(fold_left Z.add l 11) mod 256; 1]%Z.
+Definition toy_cfg : config (F := Zq 101) (G := Zq 101) :=
+  mkCfg 4 2 (map (zq_of_Z 101) [3; 5; 7; 11]%Z) (zq_of_Z 101 13) (new_weights toy_fo 4).
+Definition toy_mp_run (lab : Z) : option bool :=
+  let fs := map (map (zq_of_Z 101)) [[1; 2; 3; 4]; [0; 0; 9; 0]; [100; 7; 0; 50]]%Z in
+  let zs := [2; 0; 2]%nat in
+  let commit := msm (fgo toy_fo) (c_srs toy_cfg) in
+  let cs := map commit fs in
+  let ys := map (fun fz : list (Zq 101) * nat => nth (snd fz) (fst fz) zq_zero) (combine fs zs) in
+  match mp_create toy_fo (fgo toy_fo) toy_hash 2 [1; 0]%nat (t_new [lab]) toy_cfg commit cs fs zs with
+  | inr _ => None
+  | inl (_, pr) =>
+      match mp_check toy_fo (fgo toy_fo) toy_hash (t_new [lab]) toy_cfg pr cs ys zs with
+      | Some (_, ok) => Some ok
+      | None => None
+      end
+  end.
+Example C01_example_toy_multiproof : map toy_mp_run [1; 3; 4; 5; 6]%Z = repeat (Some true) 5.
+Proof. vm_compute. reflexivity. Qed.
